@@ -135,7 +135,8 @@ type WireReader struct {
 }
 
 func (r *WireReader) nextSeg() bool {
-	if r.seg < len(r.wire) && r.pos >= len(r.wire[r.seg]) {
+	// a wire may contain empty segments, also several in a row: skip them all
+	for r.seg < len(r.wire) && r.pos >= len(r.wire[r.seg]) {
 		r.seg++
 		r.pos = 0
 	}
@@ -164,7 +165,7 @@ func (r *WireReader) ReadByte() (byte, error) {
 }
 
 func (r *WireReader) UnreadByte() error {
-	if r.pos == 0 {
+	for r.pos == 0 { // step back over empty segments
 		if r.seg == 0 {
 			return errors.New("encoding.WireReader.UnreadByte: negative position")
 		}
